@@ -11,7 +11,11 @@ struct Inst {
   int flags;              // mode 1: per obstacle 2 bits: bit0 fixed, bit1 obstruction; plus extra-obstacle selection
 };
 
+// variants 4..7 are variants 0..3 translated far away (the obstacle rectangles of the instance are translated with them)
+static const int TDX = 1000000007, TDY = -1000000011;
 static RowSpec rowOf(int v) {
+  if (v == 8) return {0, 400, 0, 2, 0};  // wide row for the many-obstacle family
+  if (v >= 4) { RowSpec r = rowOf(v - 4); r.minX += TDX; r.maxX += TDX; r.minY += TDY; r.maxY += TDY; return r; }
   switch (v) {
     case 0: return {0, 4, 0, 2, 0};
     case 1: return {1, 4, 0, 2, 5};    // FS, offset start
@@ -58,8 +62,11 @@ static std::string compare(const RowSpec &row, const std::vector<Rect> &effectiv
   return "";
 }
 
-static vf::Verdicts eval(const Inst &in, vf::Ctx &ctx) {
+static vf::Verdicts eval(const Inst &in0, vf::Ctx &ctx) {
   vf::Verdicts out;
+  Inst in = in0;
+  if (in.rowVariant >= 4 && in.rowVariant < 8)
+    for (auto &o : in.obs) { o.x0 += TDX; o.x1 += TDX; o.y0 += TDY; o.y1 += TDY; }
   RowSpec row = rowOf(in.rowVariant);
   Row r(row.minX, row.maxX, row.minY, row.maxY, (CellOrientation)row.orient);
   if (in.mode == 2) {
@@ -146,6 +153,29 @@ static vf::Verdicts eval(const Inst &in, vf::Ctx &ctx) {
     ctx.nontrivial(vf::fnv(enc(in)));
     return out;
   }
+  if (in.mode == 4) {
+    int n = in.obs.size();
+    Circuit c(n + 1);
+    std::vector<int> w(n + 1, 1), h(n + 1, row.maxY - row.minY), x(n + 1, row.minX), y(n + 1, row.minY);
+    std::vector<bool> fx(n + 1, false), ob(n + 1, true);
+    std::vector<Rect> eff;
+    for (int i = 0; i < n; ++i) {
+      // the movable filler cell sits in the middle of the vector
+      int ci = i < n / 2 ? i : i + 1;
+      w[ci] = in.obs[i].x1 - in.obs[i].x0; h[ci] = in.obs[i].y1 - in.obs[i].y0; x[ci] = in.obs[i].x0; y[ci] = in.obs[i].y0;
+      fx[ci] = true;
+      eff.push_back({in.obs[i].x0, in.obs[i].x1, in.obs[i].y0, in.obs[i].y1});
+    }
+    c.setCellWidth(w); c.setCellHeight(h); c.setCellX(x); c.setCellY(y); c.setCellIsFixed(fx); c.setCellIsObstruction(ob);
+    c.setRows({r});
+    std::vector<Row> got;
+    CallResult cr = guarded([&] { got = c.computeRows(); });
+    if (cr.threw) { out.push_back({"computeRows-throws", cr.what + " | many obstacles " + std::to_string(n)}); return out; }
+    std::string why = compare(row, eff, got);
+    if (!why.empty()) out.push_back({"computeRows-many-obstacles:" + why, std::to_string(n) + " obstacles | " + enc(in).substr(0, 200)});
+    ctx.nontrivial(vf::fnv(enc(in)));
+    return out;
+  }
   if (in.mode == 0) {
     std::vector<Rectangle> obs;
     std::vector<Rect> eff;
@@ -207,9 +237,9 @@ int main(int argc, char **argv) {
   c.property = "C15";
   c.level = "exploration";
   c.rule =
-      "row [0,4)x[0,2) N plus three variants (offset start / FS, offset y / S, height 1 / FN) x every set of <= 2 (thorough: 3 on a reduced grid) obstacle "
+      "row [0,4)x[0,2) N plus three variants (offset start / FS, offset y / S, height 1 / FN; on a reduced grid also translated by (1e9+7, -1e9-11)) x every set of <= 2 (thorough: 3 on a reduced grid) obstacle "
       "rectangles with corners on the grid {-1..5}x{-1..3} (min <= max, degenerate ones included) through Row::freespace; through Circuit::computeRows with the "
-      "obstacles as cells carrying every fixed/obstruction flag combination and orientations N/S/W/FE (the rectangle being the placed footprint), optionally the last one as an extra obstacle, next to an unrelated row; histories on one Circuit object: computeRows, then one of 8 setters (setCellX/Y, setSolution, setCellWidth/Height, setCellIsFixed, setCellIsObstruction, setCellOrientation) changing the obstruction from rectangle A to B, then computeRows again; every sequence of <= 3 (thorough 4) flag setters / position exchanges on two obstacle cells with computeRows after each step; oracle = "
+      "obstacles as cells carrying every fixed/obstruction flag combination and orientations N/S/W/FE (the rectangle being the placed footprint), optionally the last one as an extra obstacle, next to an unrelated row; histories on one Circuit object: computeRows, then one of 8 setters (setCellX/Y, setSolution, setCellWidth/Height, setCellIsFixed, setCellIsObstruction, setCellOrientation) changing the obstruction from rectangle A to B, then computeRows again; 8..100 obstacles in one 400-wide row (4 geometric patterns x 3 orders) through Row::freespace and as fixed cells of a circuit; every sequence of <= 3 (thorough 4) flag setters / position exchanges on two obstacle cells with computeRows after each step; oracle = "
       "column oracle (a column is free iff no non-degenerate effective obstacle meets the open column x row height): segments disjoint, full height, inside "
       "the row, same orientation, union = free columns; non-trivial = the free space differs from the whole row";
   c.bounds = th ? "triples on grid {-1,0,2,4,5}x{-1,0,1,2,3}" : "pairs on the full grid";
@@ -235,8 +265,31 @@ int main(int argc, char **argv) {
           for (size_t j = i; j < red.size(); ++j)
             for (size_t k = j; k < red.size(); ++k) f(Inst{rv, {red[i], red[j], red[k]}, 0, 0});
     }
+    // many obstacles in one row (divide-and-conquer, sorting or chunking code only shows beyond a threshold): counts up to
+    // 100, four geometric patterns, three orders; through Row::freespace (mode 0) and as fixed cells of a circuit (mode 4)
+    for (int count : {8, 15, 16, 17, 31, 32, 33, 34, 47, 48, 63, 64, 65, 100})
+      for (int pat = 0; pat < 4; ++pat)
+        for (int order = 0; order < 3; ++order) {
+          std::vector<R4> obs;
+          for (int k = 0; k < count; ++k) {
+            int x0 = pat == 0 ? 4 * k + 1 : (pat == 1 ? 3 * k : (pat == 2 ? 4 * k + (k % 3) : 2 * k + 1));
+            int w = pat == 0 ? 2 : (pat == 1 ? 2 + k % 2 : (pat == 2 ? 1 + k % 4 : 1));
+            int y0 = pat == 2 ? (k % 3) - 1 : 0, y1 = pat == 2 ? y0 + 1 + k % 2 : 2;
+            obs.push_back({x0, x0 + w, y0, y1});
+          }
+          if (order == 1) std::reverse(obs.begin(), obs.end());
+          if (order == 2) { std::vector<R4> t; for (int k = 0; k < count; ++k) t.push_back(obs[(k * 7) % count == 0 && k ? (k * 7 + 1) % count : (k * 7) % count]); std::vector<R4> u; for (int st = 0; st < 2; ++st) for (int k = st; k < count; k += 2) u.push_back(obs[k]); obs = u; }
+          f(Inst{8, obs, 0, 0});
+          f(Inst{8, obs, 4, 0});
+        }
+    // far-away coordinates (variants 4, 5): Row::freespace on singles and pairs of the reduced grid
+    for (int rv = 4; rv < 6; ++rv) {
+      for (auto &a : red) f(Inst{rv, {a}, 0, 0});
+      for (size_t i = 0; i < red.size(); ++i)
+        for (size_t j = i; j < red.size(); ++j) f(Inst{rv, {red[i], red[j]}, 0, 0});
+    }
     // history on one Circuit object: query, one setter, query again
-    for (int rv = 0; rv < 2; ++rv)
+    for (int rv : {0, 1, 4})
       for (size_t i = 0; i < red.size(); ++i)
         for (size_t j = 0; j < red.size(); ++j)
           for (int op = 0; op < 8; ++op) {
